@@ -23,6 +23,18 @@ CHECKS = {
         text="The lookup bodies are translated from the MIR of the current tree (closures inlined, std combinators modelled) and compared with the specification for every map of up to 3 (thorough: 4) entries with keys of 1-3 components over an unbounded alphabet and every lookup path; the fold step is checked inductively against the Zero/One/More counting invariant, which covers maps of any size for the suffix branch. The SQL-level clause is enumeration of negative programs through the real compiler (reported as such).",
         note="Trusted: combinator models in lib/hof.py (validated on random concrete maps against the real Hierarchy every run), BTreeMap iterates in key order. A structural change the models do not cover makes the check inconclusive (exit 2), never passing.",
         design="3 C15"),
+    "C13": dict(
+        level="model_checking", engine="T (rule automaton in SMT) + driver extraction",
+        technique="SMT over all labelings of each relation tree (one finite-domain variable per node, rule lists extracted from the real setter/eliminator/selector): completeness of the selector, soundness of the eliminator, entry-point reachability and score optimality",
+        text="For every tree of the corpus the real search is run and the solver quantifies over the whole (exponential) labeling space: no consistent labeling is missing from the selector's output, no eliminated rule is usable, the entry points fail exactly when no acceptable consistent labeling exists, and no acceptable consistent labeling outscores the derivation the entry point applied. Tree shapes are enumerated (bounded), labelings are symbolic.",
+        note="Trusted: extraction through the public API, additivity of Score (probed each run), identification of the applied derivation by a name-independent signature. Known finding: a panic in the SyntheticData rewriting of joins over aggregations.",
+        design="3 C13, 2.4"),
+    "C02": dict(
+        level="other", engine="T (rule automaton in SMT) + structural IR walk",
+        technique="SMT: inductive obligations over a symbolic row of the rule table extracted from the real setter (all trees by induction) + taint query over all labelings of each corpus tree; structural walk of returned relations",
+        text="Rule-level formulation for relation trees of any depth: the inductive obligations (protected leaf never clean; clean output needs clean inputs except the PUP->DP reduce; Public needs Public; only Reduce makes DP) are decided by the solver over the extracted rule table for all 4 configurations; per tree, the solver shows no consistent labeling puts a clean label above a tainted protected leaf; the relations actually returned by rewrite_with_differential_privacy are walked structurally (every path to a protected table crosses an aggregation followed by a noise map). The last part is enumeration, stated as such.",
+        note="Trusted: extraction through the public API; independent resolution of protected tables by declared path; noise map = Map with a Random function.",
+        design="3 C02, 2.4"),
 }
 
 NOT_APPLICABLE = {
@@ -32,7 +44,6 @@ NOT_APPLICABLE = {
 
 NOT_YET = {
     "C01": "engine S (SymRel) for this property not built yet",
-    "C02": "engine T not built yet",
     "C03": "not built yet",
     "C04": "not built yet",
     "C05": "not built yet",
@@ -42,7 +53,6 @@ NOT_YET = {
     "C09": "not built yet",
     "C10": "not built yet",
     "C11": "not built yet",
-    "C13": "not built yet",
     "C14": "not built yet",
 }
 
@@ -79,6 +89,8 @@ def main():
         ),
         engines=[
             dict(name="M", path="lib/mir.py", serves_properties=["C12", "C18", "C14", "C15", "C06", "C10", "C11", "C03", "C04"], kind_free_text="nightly MIR dump of /repo -> SMT-LIB for loop-free bodies; cvc5/z3 portfolio"),
+            dict(name="T", path="lib/rules.py", serves_properties=["C02", "C13"], kind_free_text="rewriting-rule tree automaton: rule lists extracted from the real code, labelings decided by SMT"),
+            dict(name="K", path="kani/", serves_properties=["C11", "C18"], kind_free_text="Kani proof harnesses over the real Intervals<B> (CBMC)"),
             dict(name="driver", path="driver/", serves_properties=["*"], kind_free_text="Rust binary linked against /repo's working tree: runs the real type/expr/relation/rewriting code concretely on JSON jobs (grids, replays, IR dumps)"),
         ],
         checks=checks,
